@@ -77,6 +77,12 @@ def wellformed_obs(o, what=''):
         tot += len(lst)
     if o.N != tot:
         raise Violation(pre + 'sample count N = %r, sum of chain lengths = %d' % (o.N, tot))
+    want_e = sorted(set(n.split('|')[0] for n in names))
+    if sorted(o.e_names) != want_e:
+        raise Violation(pre + "e_names %r are not the texts before the first '|' of the names %r" % (o.e_names, names))
+    want_mc = sorted(set(n.split('|')[0] for n in mc))
+    if sorted(o.mc_names) != want_mc:
+        raise Violation(pre + "mc_names %r are not the ensembles %r of the Monte-Carlo chains" % (o.mc_names, want_mc))
     ec = o.e_content
     for e, reps in ec.items():
         for r in reps:
